@@ -183,6 +183,8 @@ struct Case {
     ///      defined name is stored 8-bit in windows-1251 bytes (only when all names are ASCII + А..я; impl vs spec only)
     /// 32 = xlsx: the sheet parts are stored in the archive in reverse tab order
     /// 64 = xls: dual-format file — a decoy `Book` stream (other sheets, other date system) in front of `Workbook`
+    /// 128 = xlsx: the relationships namespace is bound to a prefix literally named `id`, declared on every `<sheet>`
+    ///       element itself: `<sheet … xmlns:id="…/relationships" id:id="rId1"/>`
     knobs: u8,
     sheets: Vec<LSheet>,
     names: Vec<LName>,
@@ -580,6 +582,9 @@ fn gen_case(fmt: Fmt, rng: &mut Rng) -> Case {
             }
             if fmt == Fmt::Xls && rng.chance(1, 4) {
                 k |= 64;
+            }
+            if fmt == Fmt::Xlsx && rng.chance(1, 8) {
+                k |= 128;
             }
             k
         },
@@ -1072,6 +1077,10 @@ fn build_xlsx(c: &Case) -> Built {
     l.prefix = c.prefix.clone();
     l.pct_rich = 0;
     l.pct_swap_string_store = 0;
+    if c.knobs & 128 != 0 {
+        l.rel_prefix = "id".into();
+        l.rel_decl = xlsxw::RelDecl::Sheet;
+    }
     let built = book.build(&l);
     let rels: Vec<String> = built.sheet_rels.iter().map(|(i, t)| format!("{}={}", hex(i.as_bytes()), hex(t.as_bytes()))).collect();
     Built { bytes: built.bytes, force_codepage: None, request: format!("xlsx R={} {}", rels.join(","), xlsxw::ev_wire(&built.workbook_events)), ties: vec![] }
@@ -1733,7 +1742,7 @@ fn shrink(c: &Case, kind: &str, sig: &str, drv: &mut Driver) -> Case {
             d.inert = false;
             cands.push(d);
         }
-        for bit in [1u8, 2, 4, 8, 16, 32, 64] {
+        for bit in [1u8, 2, 4, 8, 16, 32, 64, 128] {
             if cur.knobs & bit != 0 {
                 let mut d = cur.clone();
                 d.knobs &= !bit;
@@ -1804,7 +1813,7 @@ fn run_case(c: &Case, drv: &mut Driver, rep: &mut Report, from_corpus: bool) {
     if c.ext != 0 {
         rep.count(&format!("xlsx:extLst={}", c.ext));
     }
-    for (bit, what) in [(1u8, "substreams-out-of-tab-order"), (2, "non-ascii-relationship-ids"), (4, "with_header_row-before-reading"), (8, "style-names-reused-across-families"), (16, "forced-code-page-1251-vs-record-1252 (impl vs spec only)"), (32, "sheet-parts-in-reverse-archive-order"), (64, "dual-stream-Book-before-Workbook")] {
+    for (bit, what) in [(1u8, "substreams-out-of-tab-order"), (2, "non-ascii-relationship-ids"), (4, "with_header_row-before-reading"), (8, "style-names-reused-across-families"), (16, "forced-code-page-1251-vs-record-1252 (impl vs spec only)"), (32, "sheet-parts-in-reverse-archive-order"), (64, "dual-stream-Book-before-Workbook"), (128, "relationships-prefix-named-id-declared-on-sheet")] {
         if c.knobs & bit != 0 {
             rep.count(&format!("{}:{}", c.fmt.tag(), what));
         }
@@ -2020,6 +2029,13 @@ fn corpus() -> Vec<Case> {
             c.sheets = vec![sh("S1", 0, Kind::Work), sh("S2", 1, Kind::Work)];
             v.push(c);
         }
+    }
+    // C01-k1 / C16-f: `xmlns:id="…"` on a <sheet> element was taken for the relationship id (RelationshipNotFound)
+    {
+        let mut c = base(Fmt::Xlsx);
+        c.knobs = 128;
+        c.sheets = vec![sh("S1", 0, Kind::Work), sh("S2", 1, Kind::Chart)];
+        v.push(c);
     }
     // third-round seeded changes (C16-m9 … m12)
     {
